@@ -68,33 +68,35 @@ type parkedG struct {
 }
 
 type world struct {
-	mu        sync.Mutex
-	c         *sim.Case
-	nEff      int
-	tasks     []taskSpec
-	gates     []chan struct{}
-	gateOpen  []bool
-	entered   []int
-	exited    []bool
-	blockedOn []bool // task is inside its body waiting for its gate
-	submitted []bool
-	inside    int
-	maxInside int
-	handled   []string
-	expected  []string
-	gids      map[uint64]int
-	nextLid   int
-	parked    []parkedG
-	freeRun   bool
-	subState  string // "", "go:<i>", "wait", "done"
-	subDone   bool
-	viol      *sim.Violation
-	newInStep int
-	notes     []string
-	hash      uint64
-	waitEarly string
-	waitTms   int
-	handlerOn bool
+	mu          sync.Mutex
+	c           *sim.Case
+	nEff        int
+	tasks       []taskSpec
+	gates       []chan struct{}
+	gateOpen    []bool
+	entered     []int
+	exited      []bool
+	blockedOn   []bool // task is inside its body waiting for its gate
+	submitted   []bool
+	inside      int
+	maxInside   int
+	handled     []string
+	expected    []string
+	gids        map[uint64]int
+	nextLid     int
+	parked      []parkedG
+	freeRun     bool
+	subState    string // "", "go:<i>", "wait", "done"
+	subDone     bool
+	viol        *sim.Violation
+	newInStep   int
+	notes       []string
+	hash        uint64
+	waitEarly   string
+	waitTms     int
+	handlerOn   bool
+	helperState string
+	helperDone  chan struct{}
 }
 
 func goid() uint64 {
@@ -228,6 +230,40 @@ func panicText(i, k int) string {
 	return ""
 }
 
+// helper is a second goroutine that submits functions concurrently with the main submitter
+// (Programs[1], Go operations only).  The main submitter joins it before its first Wait:
+// calling Wait while another goroutine may still call Go is a misuse of the WaitGroup inside,
+// not something the statement covers.
+func (w *world) helper(l *goz.Limiter) {
+	defer close(w.helperDone)
+	w.hook("helper.start")
+	for _, op := range w.c.Programs[1] {
+		if op.Op != "Go" {
+			continue
+		}
+		i := op.K
+		if i < 0 || i >= len(w.tasks) {
+			continue
+		}
+		w.mu.Lock()
+		if w.submitted[i] {
+			w.mu.Unlock()
+			continue
+		}
+		w.submitted[i] = true
+		w.helperState = fmt.Sprintf("go:%d", i)
+		if k := w.tasks[i].panicK; k != 0 && k != 4 && w.handlerOn {
+			w.expected = append(w.expected, panicText(i, k))
+		}
+		w.mu.Unlock()
+		l.Go(w.taskFn(i))
+		w.mu.Lock()
+		w.helperState = ""
+		w.mu.Unlock()
+		w.hook("helper.between-ops")
+	}
+}
+
 func (w *world) submitter(l *goz.Limiter) {
 	w.hook("submitter.start")
 	for _, op := range w.c.Programs[0] {
@@ -248,6 +284,16 @@ func (w *world) submitter(l *goz.Limiter) {
 			w.mu.Lock()
 			w.subState = ""
 			w.mu.Unlock()
+		case "Join":
+			if w.helperDone != nil {
+				w.mu.Lock()
+				w.subState = "join"
+				w.mu.Unlock()
+				<-w.helperDone
+				w.mu.Lock()
+				w.subState = ""
+				w.mu.Unlock()
+			}
 		case "SetHandler":
 			// the handler in force when Go is called is the one the task gets
 			w.mu.Lock()
@@ -367,6 +413,15 @@ func runCase(t *testing.T, c *sim.Case, script []int16, strict bool) (*sim.Viola
 			}
 			syield.Hook = w.hook
 			go w.submitter(l)
+			if len(c.Programs) > 1 && len(c.Programs[1]) > 0 {
+				// one new goroutine per quiescent step keeps logical ids deterministic
+				synctest.Wait()
+				w.mu.Lock()
+				w.newInStep = 0
+				w.mu.Unlock()
+				w.helperDone = make(chan struct{})
+				go w.helper(l)
+			}
 			last := -1
 			pos := 0
 			for step := 0; ; step++ {
@@ -442,7 +497,7 @@ func runCase(t *testing.T, c *sim.Case, script []int16, strict bool) (*sim.Viola
 				} else if len(w.parked) == 0 {
 					// nothing can move but a gate: every worker goroutine is gone or inside a
 					// blocked task, so the tokens in use equal the number of running tasks
-					if strings.HasPrefix(w.subState, "go:") {
+					if strings.HasPrefix(w.subState, "go:") || strings.HasPrefix(w.helperState, "go:") {
 						info.tightProbe++
 						if w.inside < w.nEff {
 							w.setViol("slot_leaked", ".Go", "Go blocks although only %d functions are running, limit %d (a slot was not given back)", w.inside, w.nEff)
@@ -636,6 +691,33 @@ func gen(r *sim.Rng, tier string) *sim.Case {
 			prog = append(prog, sim.Op{Op: "WaitT", D: []int{1, 5, 50}[r.N(3)]})
 		}
 	}
+	// some scripts let a second goroutine submit a share of the tasks concurrently; the main
+	// submitter then joins it before its first Wait and does not switch handlers meanwhile
+	var helperProg []sim.Op
+	if nScript >= 2 && r.Pct(30) {
+		var mainProg []sim.Op
+		joined := false
+		for _, op := range prog {
+			switch {
+			case op.Op == "Go" && !joined && r.Bool():
+				helperProg = append(helperProg, op)
+			case op.Op == "Go":
+				mainProg = append(mainProg, op)
+			case op.Op == "SetHandler" && !joined:
+				// dropped: the handler must not change while the helper submits
+			default:
+				if !joined {
+					mainProg = append(mainProg, sim.Op{Op: "Join"})
+					joined = true
+				}
+				mainProg = append(mainProg, op)
+			}
+		}
+		if !joined {
+			mainProg = append(mainProg, sim.Op{Op: "Join"})
+		}
+		prog = mainProg
+	}
 	// final phase: drain, then nEff blocking tasks and one more (slot recovery and tightness)
 	prog = append(prog, sim.Op{Op: "Wait"})
 	for j := 0; j < nEff+1; j++ {
@@ -644,6 +726,9 @@ func gen(r *sim.Rng, tier string) *sim.Case {
 	}
 	prog = append(prog, sim.Op{Op: "Wait"})
 	c.Programs = [][]sim.Op{prog}
+	if len(helperProg) > 0 {
+		c.Programs = append(c.Programs, helperProg)
+	}
 	c.Sched = &sim.SchedCfg{Seed: r.U64() >> 12, Policy: "sticky", StickyPct: []int{0, 50, 80, 95}[r.N(4)], FreezeAt: -1, Probe: -1, MaxSteps: 4000}
 	c.EnvSeed = r.U64() >> 12
 	return c
